@@ -681,11 +681,10 @@ impl<const N: usize, T> CircularBuffer<N, T> {
         debug_assert!(self.size <= N, "size out-of-bounds");
 
         let start = self.start;
-        let end = add_mod(self.start, self.size, N);
 
-        let slice = if start < end {
-            // Already contiguous; nothing to do
-            &mut self.items[start..end]
+        let slice = if self.size <= N - start {
+            // Already contiguous (possibly ending exactly at the end of the array); nothing to do
+            &mut self.items[start..start + self.size]
         } else {
             // Not contiguous; need to rotate
             self.start = 0;
